@@ -77,8 +77,10 @@ func getOperations(dequeued [][]byte) ([][]mh.Multihash, error)
 # forced starts, starts, provide-once, and the stop group LAST; each group is
 # handed unchanged to the wrapped provider.
 func (s *SweepingProvider) worker()
-  props C17
+  props C17 C14
   modifies *
+  ensures [exit-only-on-close-signal] tagged("recv:s.closed")
+  ensures [exit-is-announced] tagged("closed:s.done")
   ghost at before call(executeOperation)#0: assert($arg1 == ops[forceStartProvidingOp])
   ghost at before call(executeOperation)#1: assert($arg1 == ops[startProvidingOp])
   ghost at before call(executeOperation)#2: assert($arg1 == ops[provideOnceOp])
@@ -120,5 +122,15 @@ func (s *SweepingProvider) enqueue(op byte, keys ...mh.Multihash) error
   props C17
   modifies *
   ghost at before call(toBytes): assert($arg0 == op && $arg1 == keys[$key])
-@*/
 
+# C14: Close (once) gives the close signal, closes the queue and the wrapped
+# provider, and returns only after the worker announced its exit.
+funclit 0 in (s *SweepingProvider) Close() error
+  props C14
+  ghostvar $q bool = false
+  ghostvar $p bool = false
+  ensures [signal-close-wait] tagged("closed:s.closed") && tagged("recv:s.done")
+  ensures [internal-closes-queue-and-provider] $q && $p
+  ghost at before call(Close)#0: assert(tagged("closed:s.closed")); $q = true
+  ghost at before call(Close)#1: $p = true
+@*/
